@@ -16,7 +16,8 @@ func init() {
 			"(2) External names: TSDBStore.LabelNames and BucketStore.LabelNames add the name of every external label that is not in the request's WithoutReplicaLabels (source of the labels from the external-label table, removal set resolved to the request field, polarity of the membership test checked); the matcher path of the bucket store goes through the block series client, whose label sets are decided by the C08 algebra with the LabelNames call site as context. " +
 			"(3) LabelValues, both stores: nothing is returned for a label listed in WithoutReplicaLabels, and the external value is returned for an external label. " +
 			"(4) The label calls apply the same external-label matcher filter as Series and return nothing when it fails. " +
-			"(5) The proxy forwards the request fields that select data (time range, matchers, label, WithoutReplicaLabels, partial-response settings) and merges the answers of all stores that answered.",
+			"(5) The proxy forwards the request fields that select data (time range, matchers, label, WithoutReplicaLabels, partial-response settings) and merges the answers of all stores that answered. " +
+			"(6) Same selectors for Series and the label calls: in every store API that strips the matchers on its own labels with matchesExternalLabels, the raw request matchers are not read again after that call, and the Matchers of a forwarded request are built from the stripped list.",
 		Assume: []string{"agreement between index-header label tables and series decoding is not decided", "limits may truncate results (outside the property)"},
 		Run:    runC07,
 	})
@@ -28,6 +29,7 @@ func runC07(c *Ctx) {
 	c.Rule("label-values-external-and-replica", "replica label → nothing; external label → its value", 4)
 	c.Rule("label-apis-filter-external-matchers", "same external-label matcher filter as Series", 4)
 	c.Rule("proxy-forwards-label-requests", "request fields forwarded; all answers merged", 4)
+	c.Rule("stripped-matchers-used-downstream", "raw request matchers are not read after matchesExternalLabels; forwarded matchers come from its result", 13)
 	p := c.Load("pkg/store", "pkg/store/labelpb", "pkg/store/storepb")
 	if p == nil {
 		return
@@ -540,6 +542,102 @@ func runC07(c *Ctx) {
 		c.Check(appended && merged, "proxy-forwards-label-requests", construct+"#merge", p.Pos(fn.Decl.Pos()), "answers-not-merged",
 			fmt.Sprintf("every store's answer must be collected (found=%v) and the result merged from all of them (found=%v)", appended, merged))
 	}
+
+	// (6) Series and the label calls see the same selectors: every store API strips the matchers on its own
+	// external / selector labels with matchesExternalLabels and works with the stripped list from there on.
+	// The raw request matchers are dead after that call (an inner store does not know the outer labels and
+	// would match nothing), and what a proxy forwards is built from the stripped list.
+	for _, fn := range p.AllFuncs(true) {
+		if fn.Decl == nil || relPkg(fn.Pkg.PkgPath) != rel {
+			continue
+		}
+		info := fn.Info()
+		var strip *ast.CallExpr
+		inspectNoLit(fn.Body(), func(nd ast.Node) bool {
+			if call, ok := nd.(*ast.CallExpr); ok && strip == nil {
+				if f := calleeOf(info, call); f != nil && f.Name() == "matchesExternalLabels" && len(call.Args) >= 1 {
+					strip = call
+				}
+			}
+			return true
+		})
+		if strip == nil {
+			continue
+		}
+		construct := rel + "." + fn.Name
+		raw := canon(strip.Args[0])
+		again := ""
+		ast.Inspect(fn.Body(), func(nd ast.Node) bool {
+			e, ok := nd.(ast.Expr)
+			if !ok || again != "" {
+				return true
+			}
+			if e.Pos() >= strip.Args[0].Pos() && e.End() <= strip.Args[0].End() {
+				return false
+			}
+			if _, isSel := e.(*ast.SelectorExpr); isSel && canon(e) == raw {
+				again = p.Pos(e.Pos())
+			}
+			return true
+		})
+		c.Check(again == "", "stripped-matchers-used-downstream", construct+"#raw-dead", p.Pos(strip.Pos()), "raw-matchers-reused",
+			"the request's matchers ("+raw+") are read again at "+again+" after matchesExternalLabels removed the ones on this store's own labels: whatever is built from them still carries matchers the stores behind do not know, so the label calls match nothing where Series matches")
+		// stripped list → forwarded request (proxy only: functions that build a request with a Matchers field)
+		stripped := singleAssignedFromCall(fn, info, strip, 1)
+		if stripped == nil {
+			continue
+		}
+		ast.Inspect(fn.Body(), func(nd ast.Node) bool {
+			kv, ok := nd.(*ast.KeyValueExpr)
+			if !ok {
+				return true
+			}
+			if k, ok := kv.Key.(*ast.Ident); !ok || k.Name != "Matchers" {
+				return true
+			}
+			derived := false
+			seen := map[types.Object]bool{}
+			var from func(e ast.Expr, d int)
+			from = func(e ast.Expr, d int) {
+				ast.Inspect(e, func(x ast.Node) bool {
+					id, ok := x.(*ast.Ident)
+					if !ok {
+						return true
+					}
+					o := objOf(info, id)
+					if o == stripped {
+						derived = true
+					}
+					if v, ok := o.(*types.Var); ok && !v.IsField() && !seen[o] && d < 4 {
+						seen[o] = true
+						if def := singleDef(fn, info, o); def != nil {
+							from(def, d+1)
+						} else if call, idx := tupleDefIndex(fn, info, o); call != nil && idx == 0 && len(call.Args) == 1 {
+							// a conversion of the whole list (PromMatchersToMatchers(matchers...)), not a call that merely takes it among other inputs
+							from(call, d+1)
+						}
+					}
+					return true
+				})
+			}
+			from(kv.Value, 0)
+			c.Check(derived, "stripped-matchers-used-downstream", construct+"#forwarded", p.Pos(kv.Pos()), "forwarded-matchers-not-from-stripped-list",
+				"the Matchers of the forwarded request ("+canon(kv.Value)+") are not built from the list matchesExternalLabels returned")
+			return true
+		})
+	}
+}
+
+// singleAssignedFromCall: the variable bound to result idx of call in `a, b, c := call(...)`.
+func singleAssignedFromCall(fn *Fn, info *types.Info, call *ast.CallExpr, idx int) types.Object {
+	var o types.Object
+	ast.Inspect(fn.Body(), func(nd ast.Node) bool {
+		if as, ok := nd.(*ast.AssignStmt); ok && len(as.Rhs) == 1 && unparen(as.Rhs[0]) == ast.Expr(call) && idx < len(as.Lhs) {
+			o = objOf(info, as.Lhs[idx])
+		}
+		return true
+	})
+	return o
 }
 
 func compositeOf(e ast.Expr) *ast.CompositeLit {
